@@ -526,3 +526,7 @@ impl HandshakeResp {
         Ok(())
     }
 }
+
+#[cfg(any(kani, verif_replay))]
+#[path = "/verif/kani/btp_packet.rs"]
+pub(crate) mod verif_kani_btp_packet;
